@@ -69,6 +69,7 @@ Proof. vm_compute. split; reflexivity. Qed.
    end offset of a token of the source, non-decreasing along the code when token positions are *)
 From BCL Require Import Model.Parser Proofs.ParserTotal Proofs.CompileVerifies Proofs.DiagProofs.
 From BCL Require Import Proofs.LexMono.
+From BCL Require Import Proofs.LexSound.
 
 (* every entry of the position table is the end offset of a token the lexer delivered *)
 Theorem C08_code_positions_are_token_positions : forall name cs x,
@@ -117,3 +118,10 @@ Theorem C08_code_positions_sorted_all : forall name cs,
   StronglySorted N.le (g_pos (pr_prog (parse_chunks name cs))).
 Proof. first [exact LexMono.prog_positions_sorted_all | apply LexMono.prog_positions_sorted_all]. Qed.
 Print Assumptions C08_code_positions_sorted_all.
+
+(* the text of a token (the one a diagnostic quotes) is the source text ending exactly at the token's position *)
+Theorem C08_token_text_at_position : forall cs t, In t (fst (lex cs)) -> ttyp t <> tERR -> ttyp t <> tFAIL ->
+  nlen (tval t) <= tpos t /\ tpos t <= nlen (concat cs) /\
+  firstn (length (tval t)) (skipn (N.to_nat (tpos t - nlen (tval t))) (concat cs)) = tval t.
+Proof. first [exact LexSound.lex_token_at | apply LexSound.lex_token_at]. Qed.
+Print Assumptions C08_token_text_at_position.
